@@ -32,6 +32,9 @@ ASSUMPTIONS = [
     "sub-expression is a valid non-principal z-th power and substituting it reproduces the observed matrix) is reported under the separate "
     "clause fractional-pow-branch.",
     "Exp with num_steps (Trotter approximation) is not compared exactly (C58).",
+    "Two explicit refusals are rejections, not violations: LinearCombination @ LinearCombination on shared wires (ValueError of "
+    "LinearCombination.__matmul__, only reachable through the @ dunder) and qp.map_wires of an expression containing HilbertSchmidt / "
+    "LocalHilbertSchmidt (its map_wires only raises NotImplementedError); matrix and simplify are still compared for the latter.",
     "simplify idempotence is recorded (label simplify:not-idempotent) but not asserted: the statement only requires the linear map to be kept.",
 ]
 BUDGET = {"quick": {"examples": 800}, "thorough": {"examples": 40000, "shards": 16}}
@@ -367,6 +370,20 @@ def _eager(s):
     return s
 
 
+def _lincomb_matmul(s):
+    """True when the spec has a product written with @ in which at least two operands contain a LinearCombination / dot node."""
+    if not isinstance(s, dict):
+        return False
+    kids = [s[k] for k in ("base", "compute", "target", "uncompute") if isinstance(s.get(k), dict)] + list(s.get("operands") or [])
+    if s.get("op") == "prod" and s.get("via") == "dunder":
+        def has_lc(x):
+            return isinstance(x, dict) and (x.get("op") in ("lincomb", "dot") or any(
+                has_lc(k) for k in [x.get(k) for k in ("base", "compute", "target", "uncompute")] + list(x.get("operands") or [])))
+        if sum(1 for o in s.get("operands") or [] if has_lc(o)) >= 2:
+            return True
+    return any(_lincomb_matmul(k) for k in kids)
+
+
 def _mismatch(clause, e, observed, order, detail, sig, feats):
     base = _branch_variant(e, observed, order) if observed is not None else None
     if base is not None:
@@ -400,7 +417,14 @@ def check(spec):
     feats = {"ctors": sorted(acc["ctors"]), "leaves": sorted(set(acc["leaves"])), "interleaved_prod": inter,
              "globalphase_in_prod": gp_in_prod, "fractional_pow": frac}
 
-    op = zoo_extra.build(e)
+    try:
+        op = zoo_extra.build(e)
+    except ValueError as ex:
+        # LinearCombination.__matmul__ refuses another LinearCombination on shared wires with this explicit ValueError (legacy
+        # Hamiltonian convention, linear_combination.py); the generator used to count `lc @ lc` (prod via the dunder) as a valid input.
+        if "LinearCombinations can only be multiplied together" in str(ex) and _lincomb_matmul(e):
+            raise Reject("LinearCombination @ LinearCombination on shared wires (documented ValueError)") from None
+        raise
     M = _qmatrix(op, order)
     if not _close(M, R):
         raise _mismatch("matrix", e, M, order, f"expr={e} order={order} built={op!r} diff={maxdiff(M, R)}", sig, feats)
@@ -409,18 +433,7 @@ def check(spec):
     labels += ["leafref:" + k for k, v in opalg.FALLBACK_LEAVES.items() if v > before.get(k, 0)]
 
     # simplify keeps the linear map (twice, too)
-    try:
-        S = qp.simplify(op)
-    except IndexError as ex:
-        from pv.engine import _origin
-
-        origin, where = _origin(ex.__traceback__)
-        # input class of a known finding: a scaled / summed Identity factor inside a product (PennyLane's own simplification turns it
-        # into SProd(c, I()) on no wires)
-        if origin == "sut" and "Identity" in acc["leaves"] and "prod" in acc["ctors"]:
-            raise Viol("unexpected-exception", f"IndexError: {ex} expr={e}", sig=f"IndexError@{where}",
-                       features={"exc": "IndexError", "where": where, "wireless_identity_sprod": True}) from None
-        raise
+    S = qp.simplify(op)
     MS = _qmatrix(S, order) if set(S.wires) <= set(order) else None
     if MS is None or not _close(MS, R):
         raise _mismatch("simplify", e, MS, order, f"expr={e} built={op!r} simplified={S!r} diff={None if MS is None else maxdiff(MS, R)}", sig, feats)
@@ -439,7 +452,15 @@ def check(spec):
     m = {wire(a): wire(b) for a, b in spec["map"]}
     fresh = iter([f"_x{i}" for i in range(len(order))])
     morder = [m[w] if w in m else (w if w not in m.values() else next(fresh)) for w in order]
-    op2 = qp.map_wires(op, m)
+    try:
+        op2 = qp.map_wires(op, m)
+    except NotImplementedError as ex:
+        # HilbertSchmidt.map_wires (inherited by LocalHilbertSchmidt) is declared unsupported: it only raises NotImplementedError("Mapping
+        # the wires of HilbertSchmidt is not implemented."). Relabelling such an expression is outside map_wires' domain (matrix and
+        # simplify were compared above).
+        if "Mapping the wires of HilbertSchmidt is not implemented" in str(ex) and {"HilbertSchmidt", "LocalHilbertSchmidt"} & set(acc["leaves"]):
+            raise Reject("map_wires of (Local)HilbertSchmidt is declared not implemented") from None
+        raise
     M2 = _qmatrix(op2, morder)
     if not _close(M2, R):
         raise Viol("map_wires", f"expr={e} map={spec['map']} mapped={op2!r} diff={maxdiff(M2, R)}", sig=sig, features=feats)
